@@ -1,4 +1,212 @@
 import MetapypeModel.Model.Import
+import MetapypeModel.Props.C20
+/-
+  C08 — XML import mirrors the document; import-export-import is stable.
+  The model starts from the infoset lxml hands over (Model/Import.lean); the theorems are for every
+  infoset, every text and all four clean/collapse combinations.
+-/
 namespace Metapype
-theorem C08_placeholder : True := trivial
+
+def XN.isElem : XN → Bool
+  | .elem .. => true
+  | .comment _ => false
+
+def XN.localName? : XN → Option String
+  | .elem ln .. => some ln
+  | .comment _ => none
+
+/-- comments are dropped and every element child yields exactly one node, in document order -/
+theorem C08_children_mirror (clean collapse : Bool) (literals : List String) (pns : Dict) : ∀ (kids : List XN),
+    (processKids clean collapse literals pns kids).map Tree.name = kids.filterMap XN.localName?
+  | [] => rfl
+  | .comment tl :: ks => by
+    simp only [processKids, processElement, List.filterMap_cons, XN.localName?]
+    exact C08_children_mirror clean collapse literals pns ks
+  | .elem ln pfx ns att tx tl kk :: ks => by
+    simp only [processKids, processElement, List.filterMap_cons, XN.localName?, List.map_cons, Tree.name]
+    rw [C08_children_mirror clean collapse literals pns ks]
+
+/-- one element: local name, prefix and in-scope prefixed bindings are taken over as they are; in raw mode text and
+    tail are the document's (with the text that follows skipped comments folded in) -/
+theorem C08_mirror_raw (collapse : Bool) (literals : List String) (ln : String) (pfx : Option String) (ns : Dict)
+    (att : List (String × String)) (tx tl : Option String) (kids following : List XN) :
+    (processElement false collapse literals (.elem ln pfx ns att tx tl kids) following).map
+        (fun t => (t.name, t.pfx, t.nsmap, t.content, t.tail)) =
+      some (ln, pfx, ns, withCommentTails tx kids, withCommentTails tl following) := by
+  simp only [processElement, Bool.false_eq_true, if_false, Option.map_some, Tree.name, Tree.pfx, Tree.nsmap, Tree.content, Tree.tail]
+
+/-- clean mode applies the documented policy to exactly those two texts -/
+theorem C08_mirror_clean (collapse : Bool) (literals : List String) (ln : String) (pfx : Option String) (ns : Dict)
+    (att : List (String × String)) (tx tl : Option String) (kids following : List XN) :
+    (processElement true collapse literals (.elem ln pfx ns att tx tl kids) following).map
+        (fun t => (t.name, t.pfx, t.nsmap, t.content, t.tail)) =
+      some (ln, pfx, ns, cleanText collapse (literals.contains ln) (withCommentTails tx kids),
+            cleanText collapse false (withCommentTails tl following)) := by
+  simp only [processElement, if_true, Option.map_some, Tree.name, Tree.pfx, Tree.nsmap, Tree.content, Tree.tail]
+
+/-- text that follows a comment belongs to the text before it -/
+theorem C08_comment_tail (tx : Option String) (c : String) (rest : List XN) :
+    withCommentTails tx (.comment (some c) :: rest) = withCommentTails (some (tx.getD "" ++ c)) rest := rfl
+
+/- ---------------------------------------------------------------- the whitespace policy -/
+
+theorem stripLeft_pad (w s : List Char) (hw : w.all pyIsSpace = true) : stripLeft (w ++ s) = stripLeft s := by
+  induction w with
+  | nil => rfl
+  | cons c w ih =>
+    simp only [List.all_cons, Bool.and_eq_true] at hw
+    simp only [List.cons_append, stripLeft, hw.1, if_true]
+    exact ih hw.2
+
+theorem stripLeft_append_of_nonspace (s t : List Char) (h : ∃ c ∈ s, pyIsSpace c = false) :
+    stripLeft (s ++ t) = stripLeft s ++ t := by
+  induction s with
+  | nil => obtain ⟨c, hc, _⟩ := h; cases hc
+  | cons x xs ih =>
+    simp only [List.cons_append, stripLeft]
+    by_cases hx : pyIsSpace x = true
+    · simp only [hx, if_true]
+      apply ih
+      obtain ⟨c, hc, hcw⟩ := h
+      rcases List.mem_cons.mp hc with rfl | hc
+      · rw [hx] at hcw; cases hcw
+      · exact ⟨c, hc, hcw⟩
+    · simp [hx]
+
+theorem stripLeft_all_space : ∀ (s : List Char), s.all pyIsSpace = true → stripLeft s = []
+  | [], _ => rfl
+  | c :: cs, h => by
+    simp only [List.all_cons, Bool.and_eq_true] at h
+    simp only [stripLeft, h.1, if_true]
+    exact stripLeft_all_space cs h.2
+
+/-- padding a text with white space on both sides does not change what `strip()` returns -/
+theorem pyStrip_pad (w₁ s w₂ : List Char) (h1 : w₁.all pyIsSpace = true) (h2 : w₂.all pyIsSpace = true) :
+    pyStrip (w₁ ++ s ++ w₂) = pyStrip s := by
+  unfold pyStrip
+  rw [List.append_assoc, stripLeft_pad w₁ _ h1]
+  by_cases hs : ∃ c ∈ s, pyIsSpace c = false
+  · rw [stripLeft_append_of_nonspace s w₂ hs, List.reverse_append, stripLeft_pad w₂.reverse _ (by simpa using h2)]
+  · have hall : s.all pyIsSpace = true := by
+      rw [List.all_eq_true]; intro c hc
+      cases hcw : pyIsSpace c with
+      | true => rfl
+      | false => exact absurd ⟨c, hc, hcw⟩ hs
+    rw [stripLeft_all_space (s ++ w₂) (by simp [List.all_append, hall, h2]), stripLeft_all_space s hall]
+
+/-- outside literal elements and blank-only texts, a cleaned text is non-empty and has no leading or trailing white space -/
+theorem C08_clean_trimmed (s r : String) (hb : isBlankKeep s.toList = false) (h : cleanText false false (some s) = some r) :
+    r.toList ≠ [] ∧ (∀ c, r.toList.head? = some c → pyIsSpace c = false) ∧ (∀ c, r.toList.getLast? = some c → pyIsSpace c = false) := by
+  simp only [cleanText, Bool.false_eq_true, if_false, hb] at h
+  split at h
+  · cases h
+  · rename_i hne
+    simp only [Option.some.injEq] at h
+    subst h
+    simp only [String.toList_ofList]
+    refine ⟨by simpa using hne, (pyStrip_ends s.toList).1, (pyStrip_ends s.toList).2⟩
+
+/-- text consisting only of white space (and not only of blanks/tabs/NBSP) becomes None -/
+theorem C08_clean_whitespace_only (collapse : Bool) (s : String) (hb : isBlankKeep s.toList = false)
+    (hall : s.toList.all pyIsSpace = true) : cleanText collapse false (some s) = none := by
+  simp only [cleanText, Bool.false_eq_true, if_false, hb]
+  have : pyStrip s.toList = [] := by
+    unfold pyStrip; rw [stripLeft_all_space _ hall]; rfl
+  simp [this]
+
+/-- literal elements and blank-only texts are kept verbatim -/
+theorem C08_clean_kept (collapse : Bool) (s : String) :
+    cleanText collapse true (some s) = some s ∧ (isBlankKeep s.toList = true → cleanText collapse false (some s) = some s) := by
+  constructor
+  · simp [cleanText]
+  · intro h; simp [cleanText, h]
+
+/-- stability of the policy under the white space an exporter adds around a text: re-cleaning a padded, already
+    cleaned (trimmed) text gives the same text back -/
+theorem C08_stable_text (w₁ w₂ : List Char) (st : String) (h1 : w₁.all pyIsSpace = true) (h2 : w₂.all pyIsSpace = true)
+    (hne : st.toList ≠ []) (hfix : pyStrip st.toList = st.toList) :
+    cleanText false false (some (String.ofList (w₁ ++ st.toList ++ w₂))) = some st := by
+  have hnb : isBlankKeep (w₁ ++ st.toList ++ w₂) = false := by
+    -- the trimmed text starts with a non-space character, so the padded text is not blank-only
+    cases hs : st.toList with
+    | nil => exact absurd hs hne
+    | cons c cs =>
+      have hc : pyIsSpace c = false := by
+        have := (pyStrip_ends st.toList).1 c (by rw [hfix, hs]; rfl)
+        exact this
+      simp only [isBlankKeep, Bool.and_eq_false_iff, Bool.not_eq_false', List.all_eq_false]
+      right
+      refine ⟨c, by simp, ?_⟩
+      intro hcc
+      simp only [Bool.or_eq_true, beq_iff_eq] at hcc
+      rcases hcc with (rfl | rfl) | rfl <;> simp [pyIsSpace, nbsp] at hc
+  simp only [cleanText, Bool.false_eq_true, if_false, String.toList_ofList, hnb, pyStrip_pad w₁ st.toList w₂ h1 h2, hfix]
+  rw [if_neg (by simpa using hne)]
+  simp
+
+/-- and an absent text stays absent: white space alone (containing a newline, as every exporter indentation does) is dropped -/
+theorem C08_stable_none (w : String) (hall : w.toList.all pyIsSpace = true) (hnl : '\n' ∈ w.toList) :
+    cleanText false false (some w) = none := by
+  apply C08_clean_whitespace_only false w _ hall
+  simp only [isBlankKeep, Bool.and_eq_false_iff, Bool.not_eq_false', List.all_eq_false]
+  right
+  exact ⟨'\n', hnl, by decide⟩
+
+/- ---------------------------------------------------------------- qualified attribute names -/
+
+/-- unqualified names are left alone -/
+theorem C08_format_plain (name : String) (ns : Dict) (h : splitClark name.toList = none) : formatExtras name ns = name := by
+  simp [formatExtras, h]
+
+/-- `{uri}local` with the XML namespace and no prefix bound to it becomes `xml:local` -/
+theorem C08_format_xml (name : String) (target : List Char) (ns : Dict)
+    (h : splitClark name.toList = some (xmlNamespace.toList, target)) (hn : ∀ kv ∈ ns, kv.2 ≠ xmlNamespace) :
+    formatExtras name ns = "xml:" ++ String.ofList target := by
+  simp only [formatExtras, h, String.ofList_toList, beq_self_eq_true, if_true]
+  induction ns with
+  | nil => rfl
+  | cons kv rest ih =>
+    have hk := hn kv List.mem_cons_self
+    have : (xmlNamespace == kv.2) = false := by simpa using fun e => hk e.symm
+    simp only [List.foldl_cons, this, Bool.false_eq_true, if_false]
+    exact ih (fun x hx => hn x (List.mem_cons_of_mem _ hx))
+
+theorem fold_no_match (u t : String) : ∀ (rest : Dict) (acc : String), (∀ x ∈ rest, x.2 ≠ u) →
+    rest.foldl (fun acc x => if (u == x.2) = true then x.1 ++ ":" ++ t else acc) acc = acc
+  | [], acc, _ => rfl
+  | z :: zs, acc, h => by
+    have hz : (u == z.2) = false := by simpa using fun e => h z List.mem_cons_self e.symm
+    simp only [List.foldl_cons, hz, Bool.false_eq_true, if_false]
+    exact fold_no_match u t zs acc (fun x hx => h x (List.mem_cons_of_mem _ hx))
+
+/-- `{uri}local` becomes `p:local` for a prefix `p` that is bound to `uri` in scope, whenever there is one -/
+theorem C08_format_bound (name : String) (uri target : List Char) (ns : Dict)
+    (h : splitClark name.toList = some (uri, target)) (hb : ∃ kv ∈ ns, kv.2 = String.ofList uri) :
+    ∃ kv ∈ ns, kv.2 = String.ofList uri ∧ formatExtras name ns = kv.1 ++ ":" ++ String.ofList target := by
+  simp only [formatExtras, h]
+  generalize (if (String.ofList uri == xmlNamespace) = true then "xml:" ++ String.ofList target else name) = start
+  induction ns generalizing start with
+  | nil => obtain ⟨kv, hkv, _⟩ := hb; cases hkv
+  | cons kv rest ih =>
+    simp only [List.foldl_cons]
+    by_cases hrest : ∃ x ∈ rest, x.2 = String.ofList uri
+    · obtain ⟨x, hx, hx2, hf⟩ := ih hrest (if (String.ofList uri == kv.2) = true then kv.1 ++ ":" ++ String.ofList target else start)
+      exact ⟨x, List.mem_cons_of_mem _ hx, hx2, hf⟩
+    · -- no later prefix binds the uri: the fold over the rest leaves the accumulator alone
+      have hkv : kv.2 = String.ofList uri := by
+        obtain ⟨y, hy, hy2⟩ := hb
+        rcases List.mem_cons.mp hy with rfl | hy
+        · exact hy2
+        · exact absurd ⟨y, hy, hy2⟩ hrest
+      have hfold := fold_no_match (String.ofList uri) (String.ofList target) rest
+        (if (String.ofList uri == kv.2) = true then kv.1 ++ ":" ++ String.ofList target else start)
+        (fun x hx e => hrest ⟨x, hx, e⟩)
+      refine ⟨kv, List.mem_cons_self, hkv, ?_⟩
+      rw [hfold]
+      simp [hkv]
+
+/-- non-vacuity / instances of the Clark-name split, incl. a URI that itself contains `}` -/
+example : splitClark "{urn:a}b".toList = some ("urn:a".toList, "b".toList) ∧ splitClark "plain".toList = none ∧
+          splitClark "{u}x}y".toList = some ("u}x".toList, "y".toList) := by decide
+
 end Metapype
